@@ -36,6 +36,14 @@ COMBINATORS = {
     'std::option::Option::<T>::unwrap_or_else': 'opt_unwrap_or_else',  # match o { Some(x) => x, None => g() }
     'std::option::Option::<T>::is_some_and':    'opt_is_some_and',  # match o { Some(x) => f(x), None => false }
     'core::bool::<impl bool>::then':            'bool_then',        # if c { Some(f()) } else { None }
+    'std::result::Result::<T, E>::and_then':       'res_and_then',     # match r { Ok(x) => f(x), Err(e) => Err(e) }
+    'std::result::Result::<T, E>::or_else':        'res_or_else',      # match r { Ok(x) => Ok(x), Err(e) => g(e) }
+    'std::result::Result::<T, E>::unwrap_or_else': 'res_unwrap_or_else',  # match r { Ok(x) => x, Err(e) => g(e) }
+    'std::result::Result::<T, E>::map_or':         'res_map_or',       # match r { Ok(x) => f(x), Err(_) => d }
+    'std::result::Result::<T, E>::map_or_else':    'res_map_or_else',  # match r { Ok(x) => f(x), Err(e) => g(e) }
+    'std::result::Result::<T, E>::is_ok_and':      'res_is_ok_and',    # match r { Ok(x) => f(x), Err(_) => false }
+    'std::option::Option::<T>::ok_or_else':        'opt_ok_or_else',   # match o { Some(x) => Ok(x), None => Err(g()) }
+    'std::option::Option::<T>::or_else':           'opt_or_else',      # match o { Some(x) => Some(x), None => g() }
     'std::iter::Iterator::partition':           'partition',        # for x in it { if p(&x) { a.push(x) } else { b.push(x) } }
 }
 
@@ -107,6 +115,12 @@ def _lnorm_one(F, rw, N):
             B[bi]['st'].append(_discr(dl, a[0]['pl'], line))
             B[bi]['term'] = {'k': 'switch', 'd': _mv(dl), 'ts': [[0, none_bb], [1, some_bb]], 'else': rw.new_block()}
         some0 = _payload(a[0], SOME0)
+        ok0 = _payload(a[0], [{'dc': 'Ok'}, {'f': '0', 'of': 'std::result::Result::Ok'}])
+        err0 = _payload(a[0], [{'dc': 'Err'}, {'f': '0', 'of': 'std::result::Result::Err'}])
+        def res_switch(ok_bb, err_bb):
+            dl = rw.new_local('isize')
+            B[bi]['st'].append(_discr(dl, a[0]['pl'], line))
+            B[bi]['term'] = {'k': 'switch', 'd': _mv(dl), 'ts': [[0, ok_bb], [1, err_bb]], 'else': rw.new_block()}
         if kind == 'bool_then':
             if cls[0] is None: continue
             r = rw.new_local(cls[0][0]['locals'][0])
@@ -139,6 +153,39 @@ def _lnorm_one(F, rw, N):
             if cls[0] is None: continue
             none = blk_([_use(dst, _const('bool', 'false'), line)])
             opt_switch(none, spl(cls[0], [some0], dst, after))
+        elif kind == 'res_and_then':
+            if cls[0] is None: continue
+            err = blk_([_agg(dst, 'std::result::Result::Err', [err0], line=line)])
+            res_switch(spl(cls[0], [ok0], dst, after), err)
+        elif kind == 'res_or_else':
+            if cls[0] is None: continue
+            ok = blk_([_agg(dst, 'std::result::Result::Ok', [ok0], line=line)])
+            res_switch(ok, spl(cls[0], [err0], dst, after))
+        elif kind == 'res_unwrap_or_else':
+            if cls[0] is None: continue
+            ok = blk_([_use(dst, ok0, line)])
+            res_switch(ok, spl(cls[0], [err0], dst, after))
+        elif kind == 'res_map_or':
+            if cls[1] is None: continue
+            err = blk_([_use(dst, a[1], line)])
+            res_switch(spl(cls[1], [ok0], dst, after), err)
+        elif kind == 'res_map_or_else':
+            if cls[0] is None or cls[1] is None: continue
+            res_switch(spl(cls[1], [ok0], dst, after), spl(cls[0], [err0], dst, after))
+        elif kind == 'res_is_ok_and':
+            if cls[0] is None: continue
+            err = blk_([_use(dst, _const('bool', 'false'), line)])
+            res_switch(spl(cls[0], [ok0], dst, after), err)
+        elif kind == 'opt_ok_or_else':
+            if cls[0] is None: continue
+            r = rw.new_local(cls[0][0]['locals'][0])
+            e_done = blk_([_agg(dst, 'std::result::Result::Err', [_mv(r)], line=line)])
+            some = blk_([_agg(dst, 'std::result::Result::Ok', [some0], line=line)])
+            opt_switch(spl(cls[0], [], _pl(r), e_done), some)
+        elif kind == 'opt_or_else':
+            if cls[0] is None: continue
+            some = blk_([_agg(dst, 'std::option::Option::Some', [some0], line=line)])
+            opt_switch(spl(cls[0], [], dst, after), some)
         elif kind == 'partition':
             if cls[0] is None or a[0]['pl']['p']: continue
             it = rw.new_local('?iter'); va = rw.new_local('std::vec::Vec<?>'); vb = rw.new_local('std::vec::Vec<?>')
@@ -747,32 +794,33 @@ def index_loop_bound(ctx, body, blocks, header, vec_fields, self_adt):
         while i != v.len()           -> 'precise'
         while let Some(x) = v.get(i) -> 'precise'
         while i < n  with n a local whose value derives from v.len() (cached / decremented bound) -> 'derived'
-    returns 'precise' | 'derived' | None"""
+    returns ('precise' | 'derived' | None, bb of the switch that ends the loop)"""
     best = None
     for bi, st in body.stmts():
         if bi not in blocks: continue
         rv = st['rv']
         if rv['k'] == 'bin' and rv['op'] in ('Lt', 'Ne') and rv.get('ty') == 'usize':
             # the comparison must decide the loop exit
-            if not _exits_loop(body, st['dst']['l'], bi, blocks): continue
+            sw = _exits_loop(body, st['dst']['l'], bi, blocks)
+            if sw is None: continue
             for o in rv['ops']:
-                if _len_of_self_vec(body, T.expr(body, o), vec_fields, self_adt): return 'precise'
+                if _len_of_self_vec(body, T.expr(body, o), vec_fields, self_adt): return 'precise', sw
                 if o['k'] in ('copy', 'move'):
                     s = ctx.S.backslice(body, [o['pl']['l']])
-                    if any(c.item == 'len' and _self_vec(body, c.args[0], vec_fields, self_adt) for c in s.call_objs): best = 'derived'
+                    if any(c.item == 'len' and _self_vec(body, c.args[0], vec_fields, self_adt) for c in s.call_objs): best = ('derived', sw)
     for c in body.calls:
         if c.bb in blocks and c.item == 'get' and re.search(r'slice::<impl \[.*\]>::get|Vec::<.*>::get', c.name) and _self_vec(body, c.args[0], vec_fields, self_adt):
             for sb, m, els in T.option_arms(body, c.dst['l']):
                 none = m.get(0, els)
-                if none not in blocks: return 'precise'
-    return best
+                if none not in blocks: return 'precise', sb
+    return best if best else (None, None)
 
 
 def _exits_loop(body, cond_local, bb, blocks):
     for g in T.guards_from_local(body, cond_local, bb):
         for t in (g.true_bb, g.false_bb):
-            if t is not None and t not in blocks: return True
-    return False
+            if t is not None and t not in blocks: return g.switch_bb
+    return None
 
 
 def _self_vec(body, operand, vec_fields, self_adt):
@@ -935,3 +983,264 @@ class PolyInfo:
                 out.add(e)
         ren = {'acc:_%d' % self.value_local: 'value'} if self.value_local is not None else {}
         return {tuple(ren.get(y, y) if isinstance(y, str) else y for y in e) for e in out}
+
+
+# ------------------------------------------------------------------------------- precise provenance
+PROV_PAIR = ('chain', 'zip')                                            # both arguments contribute elements
+PROV_CLOSURE = ('map', 'filter', 'filter_map', 'flat_map', 'inspect', 'take_while', 'skip_while', 'map_while')
+PROV_THROUGH = ('collect', 'from_iter', 'to_vec', 'to_owned', 'rev', 'enumerate', 'peekable', 'by_ref', 'take', 'skip', 'step_by', 'fuse', 'cloned', 'copied', 'values', 'values_mut', 'keys', 'into_values', 'into_keys', 'drain')
+
+
+def prov(ctx, body, operand, _depth=0, _seen=None):
+    """Where does a value come from?  Set of (adt, field) crossed on the unique-definition chain back to a
+    parameter, plus ('param', n) for the parameter reached.  Unlike a slice this is not polluted by `&mut self`
+    aliasing (a helper that received the whole `&mut self` and was inlined): it follows references, moves,
+    transparent adaptors, `iter()`-like calls, the `next()` of a loop back to the iterated collection, both
+    arguments of chain / zip and the value returned by the closure of map / filter_map."""
+    out = set()
+    _seen = _seen if _seen is not None else set()
+    if _depth > 10 or operand['k'] not in ('copy', 'move'): return out
+    fs, root, calls = T.access_path(body, operand, depth=24, transparent=PROV_TRANSPARENT)
+    out |= set(fs)
+    if root is None: return out
+    if 1 <= root <= body.argc:
+        out.add(('param', root)); return out
+    if root in _seen: return out
+    _seen.add(root)
+    defs = [d for d in body.defs_of(root) if not (d[0] == 'stmt' and d[2]['dst']['p'])]
+    if len(defs) != 1:
+        # a value built on several paths (`match` result, spliced combinator): may come from any of them
+        for k, bi, d in defs[:6]:
+            if k == 'stmt' and d['rv']['k'] in ('agg', 'use'):
+                for o in d['rv']['ops']: out |= prov(ctx, body, o, _depth + 1, _seen)
+            elif k == 'stmt' and d['rv']['k'] == 'ref':
+                out |= prov(ctx, body, {'k': 'copy', 'pl': d['rv']['pl']}, _depth + 1, _seen)
+        return out
+    k, bi, d = defs[0]
+    if k == 'stmt':
+        rv = d['rv']
+        if rv['k'] == 'agg':
+            for o in rv['ops']: out |= prov(ctx, body, o, _depth + 1, _seen)
+        return out
+    item = (d.get('ri') or {}).get('item'); args = d['args']
+    if not args: return out
+    if item in PROV_PAIR and len(args) == 2:
+        out |= prov(ctx, body, args[0], _depth + 1, _seen) | prov(ctx, body, args[1], _depth + 1, _seen)
+    elif item in PROV_CLOSURE and len(args) == 2 and ((d.get('ri') or {}).get('trait') or '').endswith('Iterator'):
+        out |= prov(ctx, body, args[0], _depth + 1, _seen)
+        a = args[1]
+        if a['k'] in ('copy', 'move'):
+            for k2, b2, d2 in body.defs_of(a['pl']['l']):
+                if k2 == 'stmt' and d2['rv']['k'] == 'agg' and d2['rv']['adt'].startswith('closure:'):
+                    cb = ctx.F.bodies.get(d2['rv']['adt'][8:])
+                    if cb is not None and item in ('map', 'filter_map', 'flat_map', 'map_while'):
+                        out |= {x for x in prov(ctx, cb, {'k': 'copy', 'pl': {'l': 0, 'p': []}}, _depth + 1) if x[0] != 'param'}
+    elif item in ('next',) + PROV_THROUGH:
+        out |= prov(ctx, body, args[0], _depth + 1, _seen)
+    return out
+
+
+PROV_TRANSPARENT = re.compile(T.TRANSPARENT.pattern[:-len(r')(::<.*>)?$')] + r'|into_iter|iter|iter_mut|as_slice|as_mut_slice|unwrap_or_default)(::<.*>)?$')
+
+
+def from_self_field(ctx, body, operand, adt, field, self_param=1):
+    p = prov(ctx, body, operand)
+    return any(f == field and (a == adt or a.endswith('::' + adt)) for a, f in p if a != 'param') and ('param', self_param) in p
+
+
+# ------------------------------------------------------------------------------- path-sensitive guards
+def guard_requires(body, g, polarity):
+    """T.GuardInfo.requires with path-sensitive sides: the Ok-exits are reachable only from the `polarity` side of
+    the test, the other side reaches an Err-exit and no Ok-exit — also when that side first builds an Err value
+    that a later `?` turns into the return (guard moved into a helper that returns Result<()>)."""
+    oks = body.strict_ok_exits(); errs = body.err_exits()
+    good, bad = (g.true_bb, g.false_bb) if polarity else (g.false_bb, g.true_bb)
+    if good is None or bad is None: return False
+    rg = walk(body, [good])[0]; rb = walk(body, [bad])[0]
+    return bool(rg & oks) and not (rb & oks) and bool(rb & errs)
+
+
+def result_reaches_return(ctx, body, call):
+    """the value produced by `call` (a Result) is what the function returns on the paths through the call:
+         return f(..)            (tail call / match arm that is the callee's Result)
+         Ok(f(..)?)  /  let s = f(..)?; .. Ok(s)   (the Continue payload is in the slice of every Ok value built after it)
+       On the other arms the function may return something else (e.g. Ok(empty set))."""
+    if call.dst['l'] == 0 and not call.dst['p']: return True
+    res = errflow(body, call.dst['l'])
+    if any(k == 'bad' for k, h in res): return False
+    if all(h.endswith('returned') for k, h in res): return True
+    after = walk(body, [call.target])[0] if call.target >= 0 else set()
+    rets = [(e, k, st) for e, k, st in body.ret_assignments() if k in ('ok', 'val') and e in after]
+    reach = flows_from(body, call.dst['l'])
+    return bool(rets) and all(st['rv']['ops'][0]['k'] in ('copy', 'move') and st['rv']['ops'][0]['pl']['l'] in reach for e, k, st in rets)
+
+
+# merging one id set into another:  a.append(&mut b) | a.extend(b) | a.insert(x)
+MERGE_CALL = re.compile(r'(BTreeSet|HashSet|Vec)::<.*>::(append|insert|push|extend)$|as std::iter::Extend<.*>>::extend')
+
+
+def flows_from(body, local):
+    """locals that (may) hold the value of `local` or a collection it was merged into — value flow only (moves,
+    references, `?`, payload projections, Some/Ok/tuple wrappers, transparent calls, set-merging calls); unlike a slice
+    it does not follow `&mut` aliasing of unrelated call arguments"""
+    seen = {local}; work = [local]
+    while work:
+        l = work.pop()
+        for kind, bi, x in body.uses.get(l, ()):
+            nxt = None
+            if kind == 'stmt':
+                rv = x['rv']
+                if rv['k'] in ('use', 'ref', 'agg', 'cast'): nxt = x['dst']['l']
+            elif kind == 'call':
+                nm = x.name
+                if T.TRY_BRANCH.search(nm) or T.TRANSPARENT.search(T.strip_generics_tail(nm)) or SAME_VARIANT.search(nm) or ERR_ADAPTORS.search(nm) \
+                        or re.search(r'::(unwrap_or_default|unwrap_or|unwrap_or_else|transpose)(::<.*>)?$', nm):
+                    if x.arg_local(0) == l: nxt = x.dst['l']
+                elif MERGE_CALL.search(nm) and len(x.args) >= 2 and x.arg_local(0) != l:
+                    nxt = root_of(body, x.args[0])
+            if nxt is not None and nxt not in seen: seen.add(nxt); work.append(nxt)
+    return seen
+
+
+def before_every_ok(body, blocks):
+    """every feasible path from the entry to an Ok-exit passes one of `blocks` (path-sensitive dominance: a path
+    that leaves an inlined helper with Err and would have to take the Continue arm of the caller's `?` is not a path)"""
+    blocks = set(blocks)
+    if 0 in blocks: return True
+    return not (walk(body, [0], avoid=blocks)[0] & body.strict_ok_exits())
+
+
+def must_pass_or_none(ctx, rule, body, call, adt, field, what):
+    """every feasible path entry -> Ok-exit passes `call` or the None arm of a test on the Option field adt.field
+    (path-sensitive version of common.must_pass_or_none)"""
+    via = {call.bb} | {none for sb, some, none in option_field_tests(body, adt, field)}
+    for bi in body.live:
+        t = body.blocks[bi]['term']
+        if t['k'] == 'switch' and t['d']['k'] != 'const':
+            for k, b2, st in body.defs_of(t['d']['pl']['l']):
+                if k == 'stmt' and st['rv']['k'] == 'discr' and any(f == field and (a == adt or a.endswith('::' + adt)) for a, f in prov(ctx, body, {'k': 'copy', 'pl': st['rv']['pl']}) if a != 'param'):
+                    via.add({v: tg for v, tg in t['ts']}.get(0, t['else']))
+    ctx.counters['cfg_paths'] += 1
+    ok = before_every_ok(body, via)
+    ctx.check(ok, rule, 'T-MUSTCALL', body.name, 'an Ok-exit is reachable without %s' % what, body.site(call.bb))
+    return ok
+
+
+# ------------------------------------------------------------------------------- how a returned struct is filled
+def struct_field_sources(ctx, body, adt, operand=None):
+    """How is each field of the `adt` value that the function returns set?  Equivalent ways of building it:
+         Adt { f: x, .. }                                  (aggregate; `..base` update syntax is an aggregate too)
+         let mut r = Adt::default() / base; r.f = x; ..    (field assignment on every path to the Ok-exits)
+         let mut r = Adt { .. }; r.f = x;                  (aggregate, then overwritten)
+       returns ({field: [operands]}, anchor bb) or (None, why)"""
+    # the returned local: operand of Ok(..) / `_0 = r`
+    roots = set()
+    if operand is None:
+        for e, k, st in body.ret_assignments():
+            if k == 'ok' and st['rv'].get('ops'):
+                o = st['rv']['ops'][0]
+                if o['k'] in ('copy', 'move'): roots.add(o['pl']['l'])
+            elif k in ('val', 'callval'): roots.add(0)          # the value itself is returned (`fn from(..) -> Self`)
+    else:
+        roots.add(operand['pl']['l'])
+    fields = ctx.F.adt_fields(adt) or []
+    out = {}; anchor = None; seen = set()
+    work = list(roots)
+    while work:
+        l = work.pop()
+        if l in seen: continue
+        seen.add(l)
+        for k, bi, d in body.defs_of(l):
+            if k == 'call':
+                anchor = anchor if anchor is not None else bi
+                continue
+            rv = d['rv']; dst = d['dst']
+            if dst['p']:
+                fs = [p['f'] for p in dst['p'] if isinstance(p, dict) and 'f' in p]
+                if len(fs) >= 1 and fs[0] in fields and rv.get('ops'):
+                    out.setdefault(fs[0], []).append((rv['ops'][0], bi, len(fs) == 1 and not [p for p in dst['p'] if p == '*']))
+                continue
+            if rv['k'] == 'agg' and (rv['adt'] == adt or rv['adt'].endswith('::' + adt)):
+                anchor = bi
+                for f, o in zip(rv['fields'], rv['ops']): out.setdefault(f, []).append((o, bi, True))
+            elif rv['k'] == 'use' and rv['ops'][0]['k'] in ('copy', 'move') and not rv['ops'][0]['pl']['p']:
+                work.append(rv['ops'][0]['pl']['l'])
+    if anchor is None: return None, 'no value of type %s is built' % adt
+    res = {}
+    for f in fields:
+        srcs = out.get(f, [])
+        assigned = [(o, bi) for o, bi, whole in srcs if whole and bi != anchor]
+        if assigned:
+            # assignments after the aggregate / default: they decide the field if one of them lies on every path to the Ok-exits
+            if before_every_ok(body, {bi for o, bi in assigned}): res[f] = [o for o, bi in assigned]
+            else: res[f] = [o for o, bi, whole in srcs]
+        else:
+            res[f] = [o for o, bi, whole in srcs if bi == anchor]
+    return res, anchor
+
+
+OPTION_VIEW = re.compile(r'::(as_ref|as_mut|as_deref|as_deref_mut|deref|deref_mut|borrow|borrow_mut|clone|cloned|copied)(::<.*>)?$')
+
+
+def option_tests_of_field(body, adt, field):
+    """discriminant tests of the Option stored in self.<field> itself (or an `as_mut()` / `as_ref()` view of it; not of
+    a Result / ControlFlow derived from it by `context(..)` / `?`): (switch_bb, some_target, none_target)"""
+    out = []
+    for bi in sorted(body.live):
+        t = body.blocks[bi]['term']
+        if t['k'] == 'switch' and t['d']['k'] != 'const':
+            for k2, b2, d in body.defs_of(t['d']['pl']['l']):
+                if k2 == 'stmt' and d['rv']['k'] == 'discr':
+                    fs, root, calls = T.access_path(body, {'k': 'copy', 'pl': d['rv']['pl']}, transparent=OPTION_VIEW)
+                    if fs and fs[-1][1] == field and (fs[-1][0] == adt or fs[-1][0].endswith('::' + adt)) and not [c for c in calls if not OPTION_VIEW.search(T.strip_generics_tail(c))]:
+                        m = {v: tg for v, tg in t['ts']}
+                        out.append((bi, m.get(1, t['else']), m.get(0, t['else'])))
+    return out
+
+
+def none_is_error(ctx, body, adt, field):
+    """When the Option field self.<field> is None the function does not return Ok.  Evidence, all of it must agree:
+         `match self.f { None => <no Ok-exit> }` / `let Some(x) = self.f else { bail }` (None arm of a test of the field)
+         self.f.as_mut().context(..)? / .ok_or(..)? / .ok_or_else(..)?                  (error flow of the derived Option)
+       returns (n_evidence, [problems])"""
+    oks = body.strict_ok_exits(); n = 0; bad = []
+    tested = set()
+    for sb, some, none in option_tests_of_field(body, adt, field):
+        n += 1; tested.add(sb)
+        if walk(body, [none])[0] & oks: bad.append('the None arm of the test at bb%d reaches an Ok-exit' % sb)
+    for c in body.calls:
+        if c.item in ('as_mut', 'as_ref', 'as_deref', 'as_deref_mut', 'take', 'clone') and 'Option' in c.name and c.args:
+            fs = T.access_path(body, c.args[0])[0]
+            if fs[-1:] == [(adt, field)] or (fs and fs[-1][1] == field and fs[-1][0].endswith(adt)):
+                # the derived Option is either tested (counted above through its access path) or consumed by adaptors
+                if any(kind == 'stmt' and x['rv']['k'] == 'discr' for kind, bi, x in body.uses.get(c.dst['l'], ())): continue
+                n += 1
+                bad += [h for k, h in errflow(body, c.dst['l']) if k == 'bad']
+    return n, bad
+
+
+# ------------------------------------------------------------------------------- loops that must visit everything
+def early_exits(body, blocks, normal_switch, header):
+    """edges that leave the loop `blocks` from inside its body (i.e. not the regular end-of-iteration test at
+    `normal_switch`) and from which an Ok-exit is reachable: `break`, `return Ok(..)`.  Leaving through `?` / bail!
+    is fine (no Ok-exit follows, path-sensitively)."""
+    out = []
+    oks = body.strict_ok_exits()
+    for u in sorted(blocks):
+        if u == normal_switch: continue
+        for v in body.succ(u):
+            if v in blocks or body.blocks[v]['cleanup']: continue
+            if walk(body, [v], stop={header})[0] & oks or (v in oks): out.append((u, v))
+    return out
+
+
+def for_loop_switch(body, lo):
+    arms = T.option_arms(body, lo[0].dst['l'])
+    return arms[0][0] if arms else None
+
+
+def no_early_exit(ctx, rule, body, lo):
+    """T-LOOPMUST: the `for` loop ends only when its iterator is exhausted (or with an error)"""
+    ex = early_exits(body, set(lo[4]), for_loop_switch(body, lo), lo[1])
+    ctx.check(not ex, rule, 'T-LOOPMUST', body.name, 'the loop can be left early (bb%s) on the way to an Ok-exit: remaining elements are skipped' % ', bb'.join(str(u) for u, v in ex), body.site(lo[0].bb))
+    return not ex
